@@ -50,8 +50,11 @@ class LoginManager:
         if app is not None:
             self.init_app(app)
 
-    def init_app(self, app):
+    def init_app(self, app, add_context_processor=True):
         app.login_manager = self
+        if add_context_processor:
+            # Flask-Login makes current_user available to every template
+            app.context_processor(lambda: dict(current_user=_get_user()))
 
     def user_loader(self, callback):
         self._user_callback = callback
